@@ -27,21 +27,27 @@ def _is1d(a):
         return False
 
 
+def _fl(a):
+    """The monitor's own arithmetic is done in floating point whatever the storage type of the samples."""
+    a = np.asarray(a)
+    return a.astype(float) if a.dtype.kind in 'iub' else a
+
+
 def post_CORRELATION(x, y, maxlags, norm, result):
     c = _ctx()
     if not _is1d(x) or (y is not None and not _is1d(y)):
         c.discard('CORRELATION:not-1d')
         return
-    xa = np.asarray(x)
+    xa = _fl(x)
     auto = y is None or (len(y) == len(xa) and np.array_equal(np.asarray(y), xa))
-    ya = xa if y is None else np.asarray(y)
+    ya = xa if y is None else _fl(y)
     N = max(len(xa), len(ya))
     ml = N - 1 if maxlags is None else int(maxlags)
     if ml < 0 or ml > N - 1:
         c.discard('CORRELATION:maxlags-out-of-domain')
         return
     feats = {'fn': 'CORRELATION', 'norm': str(norm), 'auto': bool(auto),
-             'unequal': len(xa) != len(ya)}
+             'unequal': len(xa) != len(ya), 'dtype': np.asarray(x).dtype.name}
     if norm == 'coeff':
         if not auto:
             c.discard('coeff-crosscorrelation-not-in-statement')
@@ -75,15 +81,16 @@ def post_xcorr(x, y, maxlags, norm, result):
     if not _is1d(x) or (y is not None and not _is1d(y)):
         c.discard('xcorr:not-1d')
         return
-    xa = np.asarray(x)
+    xa = _fl(x)
     auto = y is None or (len(y) == len(xa) and np.array_equal(np.asarray(y), xa))
-    ya = xa if y is None else np.asarray(y)
+    ya = xa if y is None else _fl(y)
     N = max(len(xa), len(ya))
     ml = N - 1 if maxlags is None else int(maxlags)
     if ml < 0 or ml > N - 1:
         c.discard('xcorr:maxlags-out-of-domain')
         return
-    feats = {'fn': 'xcorr', 'norm': str(norm), 'auto': bool(auto), 'unequal': len(xa) != len(ya)}
+    feats = {'fn': 'xcorr', 'norm': str(norm), 'auto': bool(auto), 'unequal': len(xa) != len(ya),
+             'dtype': np.asarray(x).dtype.name}
     try:
         res, lags = result
     except Exception:
@@ -118,7 +125,7 @@ def post_corrmtx(x_input, m, method, result):
     if not _is1d(x_input):
         c.discard('corrmtx:not-1d')
         return
-    x = np.asarray(x_input)
+    x = _fl(x_input)
     N = len(x)
     if x.dtype.kind == 'c' and x.dtype != np.complex128:
         c.discard('corrmtx:single-precision-complex')
@@ -189,6 +196,8 @@ def cases(c):
                     'kind': gen.pick(rng, KINDS), 'norm': gen.pick(rng, NORMS),
                     'maxlags': gen.pick(rng, [None, 0, NN - 1, int(rng.integers(0, NN))]),
                     'list': bool(rng.integers(0, 2)), 'i': i})
+        if i % 6 == 1 and not cx and not cy:
+            out[-1]['variant'] = gen.NARROW[(i // 6) % len(gen.NARROW)]      # wav / ADC samples in a narrow integer type
     # data matrices
     for N in range(2, (10 if c.tier == 'quick' else 20)):
         for m in range(1, N):
@@ -201,11 +210,13 @@ def cases(c):
         out.append({'fn': 'corrmtx', 'N': N, 'm': int(rng.integers(1, N)),
                     'method': gen.pick(rng, METHODS), 'cx': int(rng.integers(0, 2)),
                     'kind': gen.pick(rng, KINDS), 'list': False, 'i': i})
+        if i % 6 == 1 and not out[-1]['cx']:
+            out[-1]['variant'] = gen.NARROW[(i // 6) % len(gen.NARROW)]
     return out
 
 
 def _mk(c, d, which, N, cplx):
-    x = gen.data({'kind': d['kind'], 'N': N, 'cplx': bool(cplx)}, c.rng(d, which))
+    x = gen.data({'kind': d['kind'], 'N': N, 'cplx': bool(cplx), 'variant': d.get('variant')}, c.rng(d, which))
     if d.get('list'):
         x = list(x)
     return x
